@@ -3,7 +3,7 @@
    the identity oracle: by export_order_independent any other oracle gives the same document. *)
 From Coq Require Import String List NArith ZArith Bool.
 Import ListNotations.
-Require Import Verif.Export.OasTypes Verif.Export.OasExport Verif.Gen.ExportTables Verif.Base.Harness.
+Require Import Verif.Export.OasTypes Verif.Export.OasExport Verif.Export.SwExport Verif.Gen.ExportTables Verif.Base.Harness.
 
 (* the model of the CURRENT source: the tables are the regenerated ones (this file does not depend on the obligations
    of OasCurrent.v, so the comparison keeps running when one of them breaks) *)
@@ -59,3 +59,21 @@ Definition OP (n:name) (i:string) (r:bool) (s:schema) := {| op_name := n; op_in 
 Definition OB (r:bool) (s:option schema) := {| ob_required := r; ob_schema := s |}.
 Definition OPN ps b rs := {| o_params := ps; o_body := b; o_resps := rs |}.
 Definition D3 ss os := {| d_schemas := ss; d_ops := os |}.
+
+(* ---- Swagger 2 definitions: one case = (the types as findSwaggerType sees them, the definitions the real
+   populateTypes wrote, read back from the JSON bytes; None = the export returned an error) *)
+Definition fsch_eqb (a b:fsch) : bool :=
+  String.eqb (f_ty a) (f_ty b) && String.eqb (f_fmt a) (f_fmt b)
+  && option_eqb (fun x y => String.eqb (fst x) (fst y) && String.eqb (snd x) (snd y)) (f_items a) (f_items b).
+Definition dsch_eqb (a b:dsch) : bool :=
+  fsch_eqb (d_main a) (d_main b) && list_eqb (fun x y => N.eqb (fst x) (fst y) && fsch_eqb (snd x) (snd y)) (d_props a) (d_props b).
+Definition c12s_case := (list (name*top2) * option (list (name*dsch)))%type.
+Definition c12s_ok (c:c12s_case) : bool :=
+  match populate_types tables2_of_source (fun l => l) (fst c), snd c with
+  | Ok2 d, Some d' => list_eqb (fun x y => N.eqb (fst x) (fst y) && dsch_eqb (snd x) (snd y)) d d'
+  | Err2, None => true
+  | _, _ => false
+  end.
+Definition T2 (t:ft2) (ms:list (name*ft2)) := {| tt := t; tt_members := ms |}.
+Definition F (ty fmt:string) (it:option (string*string)) := {| f_ty := ty; f_fmt := fmt; f_items := it |}.
+Definition D (m:fsch) (ps:list (name*fsch)) := {| d_main := m; d_props := ps |}.
